@@ -41,25 +41,76 @@ func (c *Ctx) edgeRules() []EdgeRule {
 	roleOf := map[*ssa.Function]string{}
 	for _, r := range []string{"funcBuilder", "inputBuilder", "graphBuilder", "resolver", "planner"} {
 		if f := p.MustRole(r); f != nil {
+			// the role function and the private steps it was split into
+			for _, g := range p.Region(f) {
+				if g.Parent() == nil {
+					if _, taken := roleOf[g]; !taken {
+						roleOf[g] = r
+					}
+				}
+			}
 			roleOf[f] = r
 		}
 	}
 	addEdgeWeight, addEdgeOK := c.addEdgeSummary()
 	var out []EdgeRule
+	type edgeSite struct {
+		call ssa.CallInstruction
+		a    []ssa.Value
+		lits []core.Lit
+		pos  string
+	}
 	for _, f := range p.ArgFuncs() {
+		var esites []edgeSite
 		for _, call := range core.Calls(f, core.GAddEdge, core.GAddEdgeW) {
 			a := call.Common().Args
-			e := EdgeRule{Fn: f, Call: call, Pos: p.InstrPos(call), C: a[1], P: a[2], Rel: map[string]string{}}
-			e.Role = roleOf[core.Outer(f)]
-			if e.Role == "" {
-				e.Role = core.FuncName(f)
+			// an edge between parameters of a private helper (`func link(g, root, input)`): one edge per call site of the
+			// helper, with the vertices (and weight) the site hands in
+			bound := false
+			if p.PrivateHelper(f) {
+				for _, x := range a[1:] {
+					if prm, ok := core.Strip(x).(*ssa.Parameter); ok && prm.Parent() == f {
+						bound = true
+					}
+				}
 			}
-			if core.CalleeName(call.Common()) == core.GAddEdgeW {
+			if !bound {
+				esites = append(esites, edgeSite{call, a, core.Lits(core.Guards(call.Block())), p.InstrPos(call)})
+				continue
+			}
+			for _, site := range p.Callers(f) {
+				sub := func(v ssa.Value) ssa.Value {
+					if prm, ok := core.Strip(v).(*ssa.Parameter); ok && prm.Parent() == f {
+						for i, q := range f.Params {
+							if q == prm && i < len(site.Common().Args) {
+								return site.Common().Args[i]
+							}
+						}
+					}
+					return v
+				}
+				var b []ssa.Value
+				for _, x := range a {
+					b = append(b, p.Bind(core.Strip(sub(x))))
+				}
+				lits := append(core.Lits(core.Guards(call.Block())), core.Lits(core.Guards(site.Block()))...)
+				esites = append(esites, edgeSite{site, b, lits, p.InstrPos(site)})
+			}
+		}
+		for _, es := range esites {
+			call, a := es.call, es.a
+			ef := call.Parent()
+			e := EdgeRule{Fn: ef, Call: call, Pos: es.pos, C: a[1], P: a[2], Rel: map[string]string{}}
+			e.Role = roleOf[core.Outer(ef)]
+			if e.Role == "" {
+				e.Role = core.FuncName(ef)
+			}
+			if len(a) > 3 {
 				e.Weight, e.WeightOK = core.ConstInt(a[3])
 			} else {
 				e.Weight, e.WeightOK = addEdgeWeight, addEdgeOK
 			}
-			e.Lits = core.Lits(core.Guards(call.Block()))
+			e.Lits = es.lits
 			e.CK, e.CF, e.CNew = c.describeVertex(a[1], e.Lits)
 			e.PK, e.PF, e.PNew = c.describeVertex(a[2], e.Lits)
 			// re-weighting: consumer is an element of InEdges(provider) on a graph
